@@ -608,7 +608,9 @@ static void run_sib_trial(int idx)
 		}
 		if (vf_rnd_n(r, 2)) nap_us(vf_rnd_n(r, 300));
 	}
-	nap_us(vf_rnd_range(r, 0, 2000));
+	/* the stop lands while everything is parked, or right behind the last submission, when the stream handler is just
+	 * starting on the first operation (F34: stop between the handler's check of the channel and the one in perform) */
+	if (vf_rnd_n(r, 5) >= 2) nap_us(vf_rnd_range(r, 0, 2000)); else if (vf_rnd_n(r, 2)) vf_spin_ns(vf_rnd_n(r, 30000));
 	/* stop one channel while everything is parked */
 	dispatch_io_close(t->ch[t->victim], DISPATCH_IO_STOP);
 	vf_wait_counter(&t->victim_done, nvictim, "duplex:siblings:stopped-channel-completes");
